@@ -200,7 +200,8 @@ def directive_job(j):
     res = {"id": line, "runs": 0, "nontrivial": 1, "cases": 1, "viol": []}
     d = run.fresh_dir()
     try:
-        v, n, dump = roundtrip(d, line + "\n", expect_dirs=[expect_dir] if expect_dir else None, do_format=True)
+        ed = list(expect_dir) if isinstance(expect_dir, tuple) else ([expect_dir] if expect_dir else None)
+        v, n, dump = roundtrip(d, line + "\n", expect_dirs=ed, do_format=True)
         res["runs"] += n
         for clause, detail in v:
             res["viol"].append(({"clause": clause, "directive": kind}, {"config.cfg": line + "\n", "detail": detail}))
@@ -286,6 +287,18 @@ def check(ctx):
         for ext in (".zz", "zz", ".a.b"):
             dj.append(("file_ext", "file_ext %s %s" % (lang, ext), None))
     dj.append(("file_ext-multi", "file_ext CPP .xx .yy", "file_ext CPP .xx .yy"))
+    # pairs of directives (two languages with custom extensions, two types, open+close macro, ...)
+    LANGS = ("C", "CPP", "D", "CS", "JAVA", "OC", "VALA", "PAWN", "ECMA", "OC+", "CS+", "C-Header")
+    for a in LANGS:
+        for b in LANGS:
+            if a != b:
+                dj.append(("file_ext-pair", "file_ext %s .aaa\nfile_ext %s .bbb" % (a, b), ("file_ext %s .aaa" % a, "file_ext %s .bbb" % b)))
+    dj.append(("file_ext-triple", "file_ext C .aaa\nfile_ext CPP .bbb .ccc\nfile_ext D .ddd", ("file_ext C .aaa", "file_ext CPP .bbb .ccc", "file_ext D .ddd")))
+    singles_d = ["type Aaa", "type Bbb", "macro-open MO", "macro-else ME", "macro-close MC", "set FOR zfor", "set IF zif", "file_ext CPP .qq"]
+    for a in singles_d:
+        for b in singles_d:
+            if a < b:
+                dj.append(("directive-pair", a + "\n" + b, (a, b)))
     for u in ("0.68", "0.69", "0.70", "0.73", "0.74", "0.75", "0.78", "0.78.1"):
         dj.append(("using", "using %s\nindent_columns = 3" % u, None))
     # deprecated names under 'using' (compat tables)
